@@ -139,6 +139,28 @@ def check(cfg, market, handler):
                 fails.append({'clause': 'C14.equity_table', 'detail': {'index': [str(i) for i in idx][:10]}})
         except Exception as e:  # noqa
             fails.append({'clause': 'C14.equity_table', 'detail': {'error': repr(e)}})
+    if obs.equity and not fails:
+        # whatever the caller does to a table he was given must not change what the session reports next
+        try:
+            eq1 = obs.session.get_equity_curve()
+            snap = (list(eq1.index), eq1['Equity'].tolist())
+            eq1.drop(eq1.index[:1], inplace=True)
+            eq1['Equity'] = 1.0
+            eq2 = obs.session.get_equity_curve()
+            if (list(eq2.index), eq2['Equity'].tolist()) != snap:
+                fails.append({'clause': 'C14.equity_table', 'detail': {'after_caller_modified_previous_result': True,
+                                                                     'rows_before': len(snap[0]), 'rows_after': len(eq2)}})
+            if expected:
+                a1 = obs.session.get_target_allocations()
+                snap_a = (list(a1.index), a1.fillna(-1.0).values.tolist())
+                a1.drop(a1.index[:1], inplace=True)
+                a2 = obs.session.get_target_allocations()
+                if (list(a2.index), a2.fillna(-1.0).values.tolist()) != snap_a:
+                    fails.append({'clause': 'C14.allocation_table_dates',
+                                  'detail': {'after_caller_modified_previous_result': True, 'rows_before': len(snap_a[0]),
+                                             'rows_after': len(a2)}})
+        except Exception as e:  # noqa
+            fails.append({'clause': 'C14.equity_table', 'detail': {'error': repr(e), 'on': 'second query'}})
     if expected and obs.equity and not fails:
         try:
             tab = obs.session.get_target_allocations()
